@@ -72,7 +72,11 @@ func C01(c *runner.Cfg) *report.Result {
 			}
 			if stream == "perm" {
 				r := rng.New(c.Seed, "perm", uint64(idx))
-				k := 2 + r.Intn(c.N(4, 5))
+				kmax := 4 // number of fields, not a case count: independent of the scale
+				if c.Thorough() {
+					kmax = 5
+				}
+				k := 2 + r.Intn(kmax)
 				m := &vg.Node{Kind: vg.KMessage}
 				used := map[uint16]bool{}
 				for len(m.Fields) < k {
